@@ -81,7 +81,7 @@ theorem C04_unbindable (ok : Name → Val → Bool) (body : Binding → BodyRes)
     ((wrapperRun ok body s c).result = .typeError ∨
       ∃ n v, (wrapperRun ok body s c).result = .paramViolation n v ∧ (n, v) ∈ argChecks s c ∧ ok n v = false) ∧
     (wrapperRun ok body s c).ran = 0 ∧ (wrapperRun ok body s c).received = none := by
-  unfold wrapperRun
+  simp only [wrapperRun]
   split
   · next x hx =>
     obtain ⟨h1, h2, _⟩ := runChecks_some ok _ x hx
@@ -105,7 +105,7 @@ theorem C04_transparent (ok : Name → Val → Bool) (body : Binding → BodyRes
     rw [runChecks_none_iff]
     intro x hx
     exact hall x ((checks_perm_expected s c b hwf h).mem_iff.mp hx)
-  unfold wrapperRun
+  simp only [wrapperRun]
   rw [hnone]
   simp only [callThrough, h]
   cases hb : body b with
@@ -131,7 +131,7 @@ theorem C04_trace_complete (ok : Name → Val → Bool) (body : Binding → Body
     rw [runChecks_none_iff]
     intro x hx
     exact hall x ((checks_perm_expected s c b hwf h).mem_iff.mp hx)
-  unfold wrapperRun
+  simp only [wrapperRun]
   rw [hnone]
   simp only [callThrough, h, runChecks_trace_of_none ok _ hnone]
   cases hb : body b with
@@ -158,7 +158,7 @@ theorem C04_param_fail_no_run (ok : Name → Val → Bool) (body : Binding → B
       rw [hb] at this; cases this
   obtain ⟨x, hx⟩ := hsome
   obtain ⟨h1, h2, _⟩ := runChecks_some ok _ x hx
-  unfold wrapperRun
+  simp only [wrapperRun]
   rw [hx]
   exact ⟨⟨x, (checks_perm_expected s c b hwf h).mem_iff.mp h1, h2, rfl⟩, rfl, rfl⟩
 
